@@ -21,7 +21,7 @@ Tie
                 resid: closed-form free decay vs time='residual' histories
       xcol      the filter-free specification `exactCol` (closed form + ic rule + appended cycle +
                 window + peak) vs srs.srs over the full option grid (shadow of
-                srs_column_is_exact_response_peak)
+                srs_column_is_exact_response_peak);  xcol0: likewise `exactCol0` at 0 Hz
       vrs       srs.vrs on uniform / log / random grids, with and without off-grid Fn, vs the model's
                 area weights and transmissibility (psd.interp's output fed to both sides); merged grid
                 np.unique(hstack(freq, Fn)) exactly; Miles' value
@@ -54,7 +54,7 @@ THEOREMS = [
         "rigid_response_values rolloff_triggers_iff rolloff_factor_ge_two rolloff_meets_ppc rolloff_step_triggered "
         "rolloff_step_untouched rolloff_index_values rolloff_indices residual_starts_at_record_end vrs_grid_sorted "
         "vrs_grid_mem vrs_weights vrs_gain_is_normSq_H vrs_is_quadrature_of_H2_psd vrs_needs_two_points srs_frf_gain_is_H "
-        "rolloff_linear_grid_consistent_iff "
+        "rolloff_linear_grid_consistent_iff srs_column_zero_hz_is_rigid_response_peak "
         # Props/C03c.lean
         "miles_integrand_is_normSq miles_white_noise_integral miles_is_white_noise_integral"
     ).split()
@@ -96,8 +96,9 @@ ASSUMPTIONS = [
 PARTIAL = (
     "time-domain srs path: full for rolloff='none' and f > 0 (srs_column_is_exact_response_peak: every stype x ic x peak x "
     "time x eqsine; steady_ic_exact, shift_ic_exact, residual_is_free_decay), wn = 0 coefficient branches proved exact for the "
-    "rigid oscillator (ramp_invariant_rigid; the ic/window pipeline at 0 Hz is tied by correspondence only - ic='steady' has no "
-    "steady state there); roll-off: decision, factor, new rate, M/N/S and the residual start are proved for ANY resampler of the "
+    "rigid oscillator and the whole 0 Hz column for ic other than 'steady' (ramp_invariant_rigid, "
+    "srs_column_zero_hz_is_rigid_response_peak; ic='steady' has no steady state at 0 Hz - what the code returns there is tied by "
+    "correspondence only and lies outside the property's domain sr/fn <= 2000); roll-off: decision, factor, new rate, M/N/S and the residual start are proved for ANY resampler of the "
     "stated output length (rolloff_indices, residual_starts_at_record_end), the resampled values are not modelled (C19) - "
     "finding srs-rolloff-linear (factor >= 3) is stated as rolloff_linear_grid_consistent_iff; vrs: merged grid, weights, "
     "|H|^2, quadrature proved (vrs_is_quadrature_of_H2_psd), Miles proved equal to the white-noise integral through the "
@@ -116,7 +117,8 @@ MANIFEST = {
     "response type), continued with zero input over ceil(sr/minf) appended samples, cut to primary [0,N) / total / residual "
     "[N, N+nz) and reduced by the stated peak statistic (srs_column_is_exact_response_peak); the residual window is the "
     "closed-form free decay sampled on the grid (residual_is_free_decay); the wn = 0 branches are exact for u'' = -x(t) "
-    "(ramp_invariant_rigid); a = [1, -2C, E^2] is the characteristic polynomial of the exact one-step matrix, b_pvelo = wn "
+    "(ramp_invariant_rigid) and the 0 Hz column equals the rigid specification for every ic except 'steady' "
+    "(srs_column_zero_hz_is_rigid_response_peak); a = [1, -2C, E^2] is the characteristic polynomial of the exact one-step matrix, b_pvelo = wn "
     "b_reldisp, b_pacce = wn^2 b_reldisp, lfilter linear and causal, abs = max(pos, neg), total >= primary/residual, eqsine "
     "divides by Q, column permutation invariance; roll-off: resampling happens iff the method resamples, max(freq) != 0 and "
     "sr/max(freq) < ppc (strict), the factor ceil(ppc/(sr/mf)) is >= 2 and meets ppc, and for any resampler of the stated output "
@@ -129,7 +131,7 @@ MANIFEST = {
     "scipy.signal.lfilter as modelled (measured). Real-number theorems: floating-point round-off is measured by the "
     "correspondence check and the model-free oracle inside sr/fn <= 2000. Only tied/measured, not proved: the resampled "
     "values of the four roll-off methods (fed to the model; contract C19), psd.interp, srs_frf's grid merging/interpolation/"
-    "maximum, the 0 Hz pipeline beyond the coefficient branches. Open finding reported by the oracle: rolloff='linear' with "
+    "maximum, ic='steady' at 0 Hz. Open finding reported by the oracle: rolloff='linear' with "
     "factor >= 3 (linroll's np.linspace(0, t_last, N*factor-1) grid is not spaced 1/(sr*factor)).",
     "technique": "Lean 4 proof (Cayley-Hamilton elimination of the exact state recursion into the filter; sympy-found "
     "linear_combination certificates checked by the kernel; explicit antiderivative for Miles) + source->Lean translator + "
@@ -712,6 +714,48 @@ def correspondence(ctx):
 
             add(lines, cb)
 
+    # ---- stream xcol0 (0 Hz specification exactCol0: rigid closed form, ic rule, appended cycle, window, peak) -------
+    for ci, (st, ic, pk, tm, es) in enumerate(combos):
+        if ic == "steady" or (ci % 2 and not ctx.thorough):
+            continue
+        sr = float(np.exp(rng.uniform(np.log(10.0), np.log(1e4))))
+        Q = float(rng.choice([0.6, 5.0, 10.0, 50.0]))
+        other = sr / float(rng.uniform(4.0, 60.0))
+        freqs = [0.0, other] if ci % 3 else [other, 0.0, other * 0.4]
+        n = int(rng.choice([1, 2, 3, 7, 20, 60]))
+        sig = _rand_sig(rng, n, 1)[:, 0]
+        impl = _call_srs(srs, sig, sr, freqs, Q, st, ic, pk, tm, es)
+        j0 = freqs.index(0.0)
+        line = "xcol0 %s %s %s %s %d %s %s %d %s %s" % (st, ic, pk, tm, 1 if es else 0, _bits(Q), _bits(sr), len(freqs), _fl(freqs), _fl(sig))
+        nall = n + int(math.ceil(sr / min(f for f in freqs if f > 0)))
+        amp = float(np.max(np.abs(sig)))
+        fl0 = 2 * amp * {"reldisp": (nall / sr) ** 2, "relvelo": nall / sr}.get(st, 1.0) / (Q if es else 1.0)
+
+        def cb(reps, impl=impl, j0=j0, st=st, ic=ic, pk=pk, tm=tm, es=es, Q=Q, sr=sr, freqs=freqs, sig=sig, fl0=fl0):
+            inp = _case_dict(sig, sr, freqs, Q, st, ic, pk, tm, es)
+            ctx.case(("xcol0", st, ic, pk, tm, es, Q, sr, tuple(freqs), sig.tobytes()), nontrivial=st in ("reldisp", "relvelo", "relacce"),
+                     branch="xcol0:" + st)
+            ctx.count("xcol0:time:" + tm)
+            if impl[0] != "ok":
+                ctx.disagree("xcol0", inp, impl, reps[0][:60])
+                return
+            if reps[0] in ("none", "bad-op"):
+                ctx.disagree("xcol0", inp, {"sh": float(impl[1][j0, 0])}, reps[0])
+                return
+            m = _parse(reps[0])
+            ih = impl[2][:, 0, j0]
+            if m[1:].shape != ih.shape or not np.all(np.isfinite(m)):
+                ctx.disagree("xcol0", inp, {"hist_len": int(ih.shape[0])}, {"hist_len": int(m.shape[0]) - 1})
+                return
+            scale = max(float(np.max(np.abs(ih))), fl0, 1e-300)
+            err = max(float(np.max(np.abs(m[1:] - ih))), abs(m[0] - impl[1][j0, 0]))
+            _room(ctx, "xcol0", err / (1e-9 * scale))
+            if err > 1e-9 * scale:
+                ctx.disagree("xcol0", dict(inp, freq_index=j0, column=0), {"sh": float(impl[1][j0, 0]), "hist": ih.tolist()[:4]},
+                             {"sh": float(m[0]), "hist": m[1:5].tolist()})
+
+        add([line], cb)
+
     # ---- stream resid (closed-form free decay after the record) vs time='residual' histories ---------------------
     for st in STYPES:
         for i in range(ctx.pick(6, 30)):
@@ -849,7 +893,7 @@ def correspondence(ctx):
            "vrs:grid", "vrs:miles", "vrs:Fn-on-grid"]
         + ["exact0:" + s for s in STYPES] + ["steady:" + s for s in STYPES] + ["resid:" + s for s in STYPES]
         + ["xcol:stype:" + s for s in STYPES] + ["xcol:ic:" + s for s in ICS] + ["xcol:time:" + s for s in TIMES]
-        + ["xcol:peak:" + s for s in PEAKS]
+        + ["xcol:peak:" + s for s in PEAKS] + ["xcol0:" + s for s in STYPES] + ["xcol0:time:" + s for s in TIMES]
         + ["index:%s:%s:%s" % (r, g, t) for r in ("linear", "fft", "lanczos") for g in ("triggered", "boundary-eq", "not-needed")
            for t in TIMES]
         + ["index:%s:no-resampler:%s" % (r, t) for r in ("none", "prefilter") for t in TIMES]
